@@ -99,6 +99,40 @@ def observe_all(r, pts):
             C.query(r, "sample", xs=pts), C.query(r, "nsteps")]
 
 
+def derive(rng, prog, r, nxt):
+    """provenance: the operand as the result of earlier operations (which changes which internal forms it
+    carries: values only, step changes only, both) and with reads interposed; returns (register, next free)"""
+    for _ in range(rng.choice([0, 0, 1, 1, 2, 3])):
+        k = rng.choice(["addc", "subc", "rsubc", "raddc", "mulc", "neg", "copy", "readv", "readd", "readf", "clipnone", "selfadd"])
+        c = rng.choice([F(1), F(-1), F(2), F(1, 2), F(0), F(10)])
+        if k == "readv":
+            prog.append(C.read(r, "values")); continue
+        if k == "readd":
+            prog.append(C.read(r, "deltas")); continue
+        if k == "readf":
+            prog.append(C.read(r, "frame")); continue
+        if k == "addc":
+            prog.append(C.bin_(nxt, "add", C.reg(r), C.cst(c)))
+        elif k == "subc":
+            prog.append(C.bin_(nxt, "sub", C.reg(r), C.cst(c)))
+        elif k == "rsubc":
+            prog.append(C.bin_(nxt, "sub", C.cst(c), C.reg(r)))
+        elif k == "raddc":
+            prog.append(C.bin_(nxt, "add", C.cst(c), C.reg(r)))
+        elif k == "mulc":
+            prog.append(C.bin_(nxt, "mul", C.reg(r), C.cst(rng.choice([F(1), F(-1), F(2)]))))
+        elif k == "neg":
+            prog.append(C.un(nxt, "neg", r))
+        elif k == "copy":
+            prog.append(C.un(nxt, "copy", r))
+        elif k == "clipnone":
+            prog.append(C.clip(nxt, r, None, None))
+        elif k == "selfadd":
+            prog.append(C.bin_(nxt, "add", C.reg(r), C.reg(r)))
+        r, nxt = nxt, nxt + 1
+    return r, nxt
+
+
 # ----------------------------------------------------------------------------- binary-operator families
 def binop_cases(rng, prefix, ops, n_small, n_rand, followup=False, scalars=SCALAR_POOL):
     cases = []
@@ -109,18 +143,28 @@ def binop_cases(rng, prefix, ops, n_small, n_rand, followup=False, scalars=SCALA
         nonlocal k
         prog = []
         anynan = False
+        nxt = 10
+        # exactness: derived operands of a division keep their values (only reads / copies)
+        dv = (lambda prog, r, nxt: derive(rng, prog, r, nxt)) if (op != "div" and rng.random() < 0.5) else (lambda prog, r, nxt: (r, nxt))
         if shape == "ss":
-            prog += [leaf_stmt(0, f, ca), leaf_stmt(1, g, cb), C.bin_(2, op, C.reg(0), C.reg(1))]
+            prog += [leaf_stmt(0, f, ca), leaf_stmt(1, g, cb)]
+            ra, nxt = dv(prog, 0, nxt)
+            rb, nxt = dv(prog, 1, nxt)
+            prog.append(C.bin_(2, op, C.reg(ra), C.reg(rb)))
             anynan = has_nan(f) or has_nan(g)
             pts = leaf_points(f, g[0])
         elif shape == "sc":
             c = rng.choice(scalars)
-            prog += [leaf_stmt(0, f, ca), C.bin_(2, op, C.reg(0), C.cst(c))]
+            prog += [leaf_stmt(0, f, ca)]
+            ra, nxt = dv(prog, 0, nxt)
+            prog.append(C.bin_(2, op, C.reg(ra), C.cst(c)))
             anynan = has_nan(f)
             pts = leaf_points(f)
         else:
             c = rng.choice(scalars)
-            prog += [leaf_stmt(0, f, ca), C.bin_(2, op, C.cst(c), C.reg(0))]
+            prog += [leaf_stmt(0, f, ca)]
+            ra, nxt = dv(prog, 0, nxt)
+            prog.append(C.bin_(2, op, C.cst(c), C.reg(ra)))
             anynan = has_nan(f)
             pts = leaf_points(f)
         prog += observe_all(2, pts)
@@ -623,10 +667,62 @@ def gen_C12(rng, tier):
     return cases
 
 
+def gen_C13_directed(rng, k):
+    """operand with known step points; one operation; scalar layers that start / end exactly at existing step points
+    of the operand or of the result (the in-place write path of layering), then everything is re-inspected"""
+    f = rand_leaf(rng, maxn=4, nan=0.15, grid=1, span=6, vals=[F(j) for j in range(-2, 4)])
+    while not f[0]:
+        f = rand_leaf(rng, maxn=4, nan=0.15, grid=1, span=6, vals=[F(j) for j in range(-2, 4)])
+    c = rng.choice(SIDES)
+    P = [leaf_stmt(0, f, c)]
+    if rng.random() < 0.5:
+        P.append(C.read(0, rng.choice(["deltas", "values", "frame"])))
+    d = F(0)
+    kind = rng.choice(["shift", "shift", "copy", "neg", "addc", "mulc", "clipnone", "wherenone", "fills", "mask1", "sub0", "diff", "addself"])
+    if kind == "shift":
+        d = rng.choice([F(1), F(-1), F(2), F(10)])
+        P.append(C.shift(1, 0, d))
+    elif kind == "copy":
+        P.append(C.un(1, "copy", 0))
+    elif kind == "neg":
+        P.append(C.un(1, "neg", 0))
+    elif kind == "addc":
+        P.append(C.bin_(1, rng.choice(["add", "sub"]), C.reg(0), C.cst(rng.choice([F(0), F(1)]))))
+    elif kind == "mulc":
+        P.append(C.bin_(1, "mul", C.reg(0), C.cst(1)))
+    elif kind == "clipnone":
+        P.append(C.clip(1, 0, None, None))
+    elif kind == "wherenone":
+        P.append(C.maskt(1, 0, None, None, inverse=True))
+    elif kind == "fills":
+        P.append(C.fills(1, 0, 0))
+    elif kind == "mask1":
+        P += [C.new(2, 0, c), C.mask(1, 0, 2)]
+    elif kind == "sub0":
+        P += [C.new(2, 0, c), C.bin_(1, "add", C.reg(0), C.reg(2))]
+    elif kind == "diff":
+        d = F(1)
+        P.append(C.diff(1, 0, d))
+    else:
+        P.append(C.bin_(1, "add", C.reg(0), C.reg(0)))
+    pts0 = f[0]
+    pts1 = [p + d for p in pts0]
+    P += [C.read(0, "frame"), C.read(1, "frame")]
+    for _ in range(rng.randint(1, 3)):
+        tgt = rng.choice([0, 1])
+        pts = pts0 if tgt == 0 else pts1
+        a = rng.choice(pts)
+        b = rng.choice(pts + [None, a + F(1, 2)])
+        P.append(C.layer_s(tgt, a, b, rng.choice([F(1), F(5), F(-1)])))
+        P += [C.read(0, "frame"), C.read(1, "frame"), C.read(0, "deltas"), C.read(1, "deltas")]
+    fl = flav(rng, has_nan(f))
+    return mk(f"C13/directed/{kind}/{k}", P, fl, tags=["directed-" + kind])
+
+
 def gen_C13(rng, tier):
     n = 2500 if tier == "quick" else 20000
-    cases = []
-    for k in range(n):
+    cases = [gen_C13_directed(rng, k) for k in range(n // 2)]
+    for k in range(n // 2):
         prog, regs, anynan = rand_program(rng, rng.randint(1, 2), kinds=["bin", "scal", "un", "clip", "mask", "where", "maskt",
                                                                          "fills", "fillm", "fillg", "shift"], reads=0.3)
         res = regs[-1]
@@ -670,9 +766,17 @@ def gen_C14(rng, tier):
     for k in range(n):
         c = rng.choice(SIDES)
         # a function with finite pieces of total length a power of two, so that every answer is exact
-        base = ([F(0), F(4)], [F(0), rng.choice([F(1), F(2)]), F(0)]) if rng.random() < 0.7 else rand_leaf_pow2(rng, nan=0)
+        r0 = rng.random()
+        if r0 < 0.25:       # step-free receivers: queried, then layered
+            base = ([], [rng.choice([F(0), F(1), F(2)])])
+        elif r0 < 0.75:
+            base = ([F(0), F(4)], [F(0), rng.choice([F(1), F(2)]), F(0)])
+        else:
+            base = rand_leaf_pow2(rng, nan=0)
         prog = [leaf_stmt(0, base, c)]
-        lay_pts = [None, F(0), F(1), F(2), F(4)] if base[0] == [F(0), F(4)] else [None] + base[0]
+        if r0 < 0.25:
+            prog += [stat_query(rng, 0, q) for q in rng.sample(["integral", "mean", "min", "max"], 2)]
+        lay_pts = [None, F(0), F(1), F(2), F(4)] if base[0] in ([F(0), F(4)], []) else [None] + base[0]
         undo = None
         for _ in range(rng.randint(2, 6)):
             r = rng.random()
@@ -745,6 +849,19 @@ def gen_C15(rng, tier):
                     fl = flav(rng, has_nan(fa) or has_nan(fb))
                     cases.append(mk(f"C15/binary/{sa}/{ca}/{sb}/{cb}", P, fl, tags=["grid-binary"]))
                     k += 1
+    # collection aggregation: every arrangement of three members (shapes x sides), plus cov / corr / resample / slicing
+    trip = [(sa, ca) for sa in ("steps", "const1", "constnan", "steps_nan_left") for ca in SIDES]
+    combos = [(x, y, z) for x in trip for y in trip for z in trip]
+    for i, (x, y, z) in enumerate(sample_scope(rng, combos, 250 if tier == "quick" else len(combos))):
+        P = [leaf_stmt(j, shape_leaf(rng, sh), cl) for j, (sh, cl) in enumerate((x, y, z))]
+        P.append(C.agg(3, rng.choice(GFUNCS), [0, 1, 2]))
+        P.append(C.agg(4, rng.choice(GFUNCS), [1, 0]))
+        P.append(C.query(0, "cov", b=1, lo=F(0), hi=F(4)))
+        P.append(C.query(2, "corr", b=0, lo=F(0), hi=F(4)))
+        P.append(C.resample(5, 0, "mean", rng.choice(["left", "right"]), [(F(0), F(2)), (F(2), F(4))]))
+        fl = flav(rng, True)
+        fl["coll"] = rng.choice(COLLS)
+        cases.append(mk(f"C15/agg/{i}", P, fl, mode="tol", tags=["grid-agg"]))
     # random operands on the same grid of operations (results that are step-free or everywhere undefined included)
     n = 300 if tier == "quick" else 4000
     for i in range(n):
